@@ -1,0 +1,22 @@
+//go:build verif
+
+package sharding
+
+// Contracts for the govc verifier (/verif). Comment-only.
+
+//@ func makeDAGSimple
+//@   opts trusted
+//@   ensures err == nil ==> res != nil
+//@   modifies nothing
+
+// "each shard ... deep enough to cover its links": a shard with more links than fit in one node gets
+// an indirect root plus enough leaf nodes to hold every link (MaxLinks per leaf)
+//@ func makeDAG
+//@   property C13
+//@   ensures [small-shard-one-node] err == nil && len(dagObj) <= MaxLinks ==> len(res) == 1
+//@   ensures [leaves-hold-every-link] err == nil && len(dagObj) > MaxLinks ==> len(res) >= 2 && (len(res) - 1) * MaxLinks > len(dagObj)
+//@   loop 1 (for i <= numFullLeaves)
+//@     invariant 0 <= i && i <= numFullLeaves + 1 && len(leafNodes) == i && numFullLeaves * MaxLinks <= len(dagObj) && len(dagObj) < (numFullLeaves + 1) * MaxLinks && numFullLeaves >= 1
+//@   loop 2 (for j < MaxLinks)
+//@     invariant true
+//@   modifies nothing
